@@ -954,6 +954,22 @@ pub fn run_dacts(node: &mut Node, ds: &[DAct]) {
                         wd.roots.borrow_mut().push(h);
                         let nr = wd.roots.borrow().len();
                         crate::consume::apply(&Op::TryUnwrap(sel_for(nr - 1, nr)));
+                    } else if *k & 3 == 2 && wd.cfg.dtor_stash && (outsider || wd.model.borrow().objs[t as usize].st != St::Alive) {
+                        // the destructor moves the handle out of its value and hands
+                        // it to the program instead of dropping it
+                        let h = node.slots.borrow_mut().remove(j);
+                        let owner = h.owner.get();
+                        h.owner.set(NONE);
+                        wd.model.borrow_mut().remove_slot_instance(owner, t);
+                        if outsider {
+                            // a live outsider: an ordinary handle of the program now
+                            wd.model.borrow_mut().roots.push(t);
+                            wd.roots.borrow_mut().push(h);
+                        } else {
+                            // a peer destroyed with it: the handle is dead; the program
+                            // drops it once the teardown has finished (C16: no effect)
+                            wd.dead_stash.borrow_mut().push(h);
+                        }
                     } else {
                         let h = node.slots.borrow_mut().remove(j);
                         // the Drop impl removes the instance from the model by (owner, target)
@@ -1510,6 +1526,27 @@ pub fn run_script(s: &Script, cfg: Cfg) -> ! {
     finish()
 }
 
+/// Handles to destroyed peers that destructors handed to the program: dropped
+/// now, after the teardown that produced them has returned.
+fn drain_dead_stash() {
+    let wd = w();
+    loop {
+        let Some(h) = wd.dead_stash.borrow_mut().pop() else { break };
+        // only while a Weak held by the program keeps the allocation of the
+        // destroyed object alive: otherwise the allocation is gone with the
+        // teardown and the handle dangles (it is forgotten, not dropped)
+        if !wd.model.borrow().wroots.contains(&h.target) {
+            std::mem::forget(h);
+            continue;
+        }
+        label(lab::DEAD_HANDLE_DROPPED_LATER);
+        exec::set_msg(&format!("drop, after the teardown, of a handle to destroyed object {} that a destructor had moved out of its value", h.target));
+        if let Err(e) = catch_unwind(AssertUnwindSafe(move || drop(h))) {
+            handle_panic(e);
+        }
+    }
+}
+
 /// Interpret the whole script; returns normally when no view failed.
 pub fn run_script_body(s: &Script, cfg: Cfg) {
     arena::seed_layout(s.arena_seed.unwrap_or(s.layout_seed), true);
@@ -1534,6 +1571,7 @@ pub fn run_script_body(s: &Script, cfg: Cfg) {
     for (i, op) in s.ops.iter().enumerate() {
         shared().op = i as u32;
         arena::st().ctx_op = i as u32;
+        drain_dead_stash();
         if arena::st().fail_fired {
             // the call during which the allocation failed has returned
             arena::st().fail_fired = false;
@@ -1570,6 +1608,7 @@ pub fn run_script_body(s: &Script, cfg: Cfg) {
     }
     // the cleanup phase runs without injection
     arena::st().fail_in = 0;
+    drain_dead_stash();
     if !s.cleanup.is_empty() {
         let base = s.ops.len();
         let mut k = 0usize;
